@@ -12,11 +12,15 @@
 //!   PROGi: space separated client operations of thread i
 //!     p<key>=<val>   d<key>   b<key>=<val>,<key>=~,...   (e = empty batch)   g<key>
 //!     s<lo>-<hi> (scan of the inclusive key-id range, forward)   s (whole store)
+//!     S<lo>-<hi> / S  the same scan walked forward (seek_to_first + next) and then, on the SAME cursor,
+//!                     backward (seek_to_last + prev): events skv (forward) and skb (backward)
+//!     m<key>,<key>,...  multi-get through ONE snapshot cursor over the whole store: one seek per listed key
+//!                     (sorted or not, with repeats and absent keys): events mgv(op, key, value | MAX = absent)
 //!     r (request a flush, do not wait)
 //!   keys are ids (bytes "k%04d"), values are u64 (8 bytes big endian followed by (val % 5) * 7 filler bytes)
 //! controller commands:
 //!   arm:<what>:<tid>:<skip>  start:<tid>  startall  parked:<what>:<tid>  release:<what>:<tid>
-//!   join:<tid>  joinall  flush (request + wait)  reqflush  sleep:<ms>  final (scan + get of every key)
+//!   join:<tid>  joinall  flush (request + wait)  reqflush  sleep:<ms>  final (scan both ways + multi-get of every key twice and one absent key + get of every key)
 //!   p<key>=<val> / d<key> / b... / g<key> / s...   (an operation issued by the controller itself, tid 900)
 //! output:
 //!   OPEN ok|err ..
@@ -24,7 +28,7 @@
 //!   FINAL <seq_no> <mem_seq_no> <imm_trigger> <has_imm>   the store's scalars after the run
 //!   CTL <what> <result>                  controller notes (timeouts)
 //!   END
-//! recorded client events: inv(op, kind, 0)  got(op, 0 none|1 value|2 tombstone|3 err, value)
+//! recorded client events (kinds: 0 put 1 del 2 batch 3 get 4 scan 5 reqflush 6 scan both ways 7 multi-get): inv(op, kind, 0)  got(op, 0 none|1 value|2 tombstone|3 err, value)
 //!   skv(op, key, value)  ret(op, 0 ok|1 err|2 panic, 0)
 use std::io::{BufRead, Write};
 use std::ops::Bound;
@@ -71,6 +75,8 @@ enum Op {
     Batch(Vec<(u64, Option<u64>)>),
     Get(u64),
     Scan(Option<(u64, u64)>),
+    Scan2(Option<(u64, u64)>),
+    MultiGet(Vec<u64>),
     ReqFlush,
 }
 
@@ -100,6 +106,21 @@ fn parse_op(s: &str) -> Option<Op> {
                 Some(Op::Scan(Some((lo.parse().ok()?, hi.parse().ok()?))))
             }
         }
+        "S" => {
+            if t.is_empty() {
+                Some(Op::Scan2(None))
+            } else {
+                let (lo, hi) = t.split_once('-')?;
+                Some(Op::Scan2(Some((lo.parse().ok()?, hi.parse().ok()?))))
+            }
+        }
+        "m" => {
+            let mut ks = vec![];
+            for k in t.split(',') {
+                ks.push(k.parse().ok()?);
+            }
+            Some(Op::MultiGet(ks))
+        }
         "r" => Some(Op::ReqFlush),
         _ => None,
     }
@@ -112,6 +133,8 @@ fn kind_of(op: &Op) -> u64 {
         Op::Batch(..) => 2,
         Op::Get(..) => 3,
         Op::Scan(..) => 4,
+        Op::Scan2(..) => 6,
+        Op::MultiGet(..) => 7,
         Op::ReqFlush => 5,
     }
 }
@@ -179,6 +202,73 @@ fn run_op(kvs: &KeyValueStore, idx: u64, op: &Op) {
                     }
                 }
             }
+            Op::Scan2(range) => {
+                let (lo, hi) = match range {
+                    None => (Bound::Unbounded, Bound::Unbounded),
+                    Some((lo, hi)) => (Bound::Included(key_bytes(*lo)), Bound::Included(key_bytes(*hi))),
+                };
+                match kvs.range_scan(&lo, &hi) {
+                    Err(_) => 1,
+                    Ok(mut c) => {
+                        let mut st = 0;
+                        if c.seek_to_first().is_err() {
+                            st = 1;
+                        }
+                        while st == 0 {
+                            if c.next().is_err() {
+                                st = 1;
+                                break;
+                            }
+                            match c.key_value() {
+                                Some(kv) => match kv.value {
+                                    Some(v) => verif::event("skv", idx, key_id(kv.key), val_id(v)),
+                                    None => verif::event("skv", idx, key_id(kv.key), u64::MAX),
+                                },
+                                None => break,
+                            }
+                        }
+                        verif::event("sturn", idx, 0, 0);
+                        if st == 0 && c.seek_to_last().is_err() {
+                            st = 1;
+                        }
+                        while st == 0 {
+                            if c.prev().is_err() {
+                                st = 1;
+                                break;
+                            }
+                            match c.key_value() {
+                                Some(kv) => match kv.value {
+                                    Some(v) => verif::event("skb", idx, key_id(kv.key), val_id(v)),
+                                    None => verif::event("skb", idx, key_id(kv.key), u64::MAX),
+                                },
+                                None => break,
+                            }
+                        }
+                        st
+                    }
+                }
+            }
+            Op::MultiGet(ks) => match kvs.range_scan::<Vec<u8>>(&Bound::Unbounded, &Bound::Unbounded) {
+                Err(_) => 1,
+                Ok(mut c) => {
+                    let mut st = 0;
+                    for k in ks.iter() {
+                        let kb = key_bytes(*k);
+                        if c.seek(&kb).is_err() {
+                            st = 1;
+                            break;
+                        }
+                        match c.key_value() {
+                            Some(kv) if kv.key == kb.as_slice() => match kv.value {
+                                Some(v) => verif::event("mgv", idx, *k, val_id(v)),
+                                None => verif::event("mgv", idx, *k, u64::MAX - 1),
+                            },
+                            _ => verif::event("mgv", idx, *k, u64::MAX),
+                        }
+                    }
+                    st
+                }
+            },
             Op::ReqFlush => {
                 kvs.verif_request_flush();
                 0
@@ -380,7 +470,15 @@ fn main() {
             }
             "sleep" => std::thread::sleep(Duration::from_millis(f[1].parse().unwrap())),
             "final" => {
-                run_op(&kvs, ctl_idx, &Op::Scan(None));
+                run_op(&kvs, ctl_idx, &Op::Scan2(None));
+                ctl_idx += 1;
+                let mut ks = vec![];
+                for k in 0..nkeys {
+                    ks.push(k);
+                    ks.push(k);
+                }
+                ks.push(nkeys);
+                run_op(&kvs, ctl_idx, &Op::MultiGet(ks));
                 ctl_idx += 1;
                 for k in 0..nkeys {
                     run_op(&kvs, ctl_idx, &Op::Get(k));
